@@ -1,2 +1,3 @@
 pub mod forget;
 pub mod probe;
+pub mod repo;
